@@ -41,6 +41,8 @@ ASSUMPTIONS = [
 CASE_TIMEOUT = 20.0
 
 ZONES = (dns.versioned.Zone, dns.btreezone.Zone)
+# zone kinds of a case: 0/1 relativized versioned / B-tree zone, 2/3 the same with relativize=False
+# (absolute owner names inside the zone; reader(serial=) then looks the SOA up at zone.origin)
 ORIGIN = dns.name.from_text("example.")
 IN = dns.rdataclass.IN
 A, SOA, TXT = dns.rdatatype.A, dns.rdatatype.SOA, dns.rdatatype.TXT
@@ -86,6 +88,8 @@ def content_of(pairs):
     out = []
     for name, rds in pairs:
         rd = list(rds)
+        if name.is_absolute():
+            name = name.relativize(ORIGIN)
         k = REV.get((name, rds.rdtype))
         if len(rd) != 1 or k is None:
             out.append([-1, len(rd)])
@@ -158,7 +162,7 @@ def mutable_objects(z):
 
 class Run:
     def __init__(self, kind):
-        self.z = ZONES[kind]("example.")
+        self.z = ZONES[kind % 2]("example.", relativize=kind < 2)
         self.handles = []
         self.w = None
 
@@ -252,15 +256,15 @@ def exc_code(e):
 
 
 def in_model(kind, case):
-    return case[0] not in (2, 4)
+    return case[0] not in (102, 104)
 
 
 def impl(case):
-    if case[0] == 4:  # replay of one reader()-preemption schedule
+    if case[0] == 104:  # replay of one reader()-preemption schedule
         import c11_atomic
         f = c11_atomic.replay(case)
         return [0, []] if f is None else [1, [f["what"]]]
-    if case[0] == 2:  # replay of one reported immutability failure
+    if case[0] == 102:  # replay of one reported immutability failure
         fs = c11_immut.replay(case)
         return [len(fs), [f["what"] + " " + " ".join(f.get("args", [])) for f in fs[:5]]]
     kind, ops = case
@@ -393,7 +397,7 @@ def cases(ctx):
     rng = ctx.rng
     for word in itertools.product(range(len(ALPHABET2)), repeat=ctx.n(3, 4)):
         ops = [o for i in word for o in ALPHABET2[i]]
-        yield "exhaustive-delegations", [1, ops]
+        yield "exhaustive-delegations", [1 if word[-1] % 2 else 3, ops]
         if word[0] % 3 == 0:
             yield "exhaustive-delegations", [0, ops]
     # 1. exhaustive: every word of length L over the alphabet (prefixes are covered by the per-step outputs)
@@ -403,7 +407,7 @@ def cases(ctx):
         if L == 4 and (word[0] + word[3]) % 2:
             continue   # thorough: half of the length-4 words (all length-3 words are prefixes of the kept ones)
         ops = [o for i in word for o in ALPHABET[i]]
-        yield "exhaustive", [n % 2, ops]
+        yield "exhaustive", [n % 4, ops]
         n += 1
     ctx.notes["exhaustive"] = True
     ctx.notes["exhaustive_scope"] = (
@@ -413,7 +417,7 @@ def cases(ctx):
     # 2. random interleaved histories
     for i in range(ctx.n(700, 6000)):
         length = rng.choice([6, 10, 16, 24, 40])
-        yield "history", [i % 2, gen_history(rng, length)]
+        yield "history", [i % 4, gen_history(rng, length)]
     # 3. long retention scenarios: many commits under a max-versions policy with pinned readers
     for i in range(ctx.n(60, 1000)):
         ops = [[9, rng.choice([1, 2, 3, 5])]]
@@ -425,7 +429,7 @@ def cases(ctx):
                 opened += 1
             if opened and rng.random() < 0.4:
                 ops.append([3, rng.randrange(opened)])
-        yield "retention", [i % 2, ops]
+        yield "retention", [i % 4, ops]
 
 
 # ---------------------------------------------------------------------------- oracle
@@ -460,9 +464,9 @@ def oracle(ctx, kind, case, out):
     if isinstance(out, Err):
         fail("history runner failed: " + out.text, -1)
         return F
-    if case[0] in (2, 4):
+    if case[0] in (102, 104):
         if out[0]:
-            fail(("immutability: " if case[0] == 2 else "reader() atomicity: ") + "; ".join(x.decode("latin-1") if isinstance(x, bytes) else str(x) for x in out[1]), -1)
+            fail(("immutability: " if case[0] == 102 else "reader() atomicity: ") + "; ".join(x.decode("latin-1") if isinstance(x, bytes) else str(x) for x in out[1]), -1)
         return F
     zk, ops = case
     history = [1]              # every id ever committed, in order
@@ -597,7 +601,7 @@ def widen(ctx, disagreements):
     F = []
     rng = ctx.rng
     for i in range(4000):
-        case = [i % 2, gen_history(rng, rng.choice([20, 40, 80]))]
+        case = [i % 4, gen_history(rng, rng.choice([20, 40, 80]))]
         f = oracle(ctx, "widen", case, impl(case))
         if f:
             f[0]["case"] = case
